@@ -376,4 +376,8 @@ MUTANTS = [
     M("mg-cards-board-dup", ["C03"], (SD, "            self.board[0],\n            self.board[1],", "            self.board[1],\n            self.board[1],")),
     M("mg-cards-hole-dup", ["C03"], (SD, "            self.hole_cards[0],\n            self.hole_cards[1],", "            self.hole_cards[0],\n            self.hole_cards[0],")),
     M("mg-record-board-order", ["C03"], (SD, "board: [board[0], board[1], board[2], board[3], board[4]],", "board: [board[1], board[0], board[2], board[3], board[4]],")),
+    M("mg-empty-test-skip", ["C08"], (FE, "if self.player_entries.iter().any(|entry| entry.is_empty()) {", "if self.player_entries.iter().skip(1).any(|entry| entry.is_empty()) {")),
+    M("benign-empty-test-rev", ["C08"], (FE, "if self.player_entries.iter().any(|entry| entry.is_empty()) {", "if self.player_entries.iter().rev().any(|entry| entry.is_empty()) {"), benign=True),
+    M("mg-weight-one-rejected", ["C05"], (TK, 'Regex::new(r"^[AKQJT98765432]{2}(:(0(\\.[0-9]+)?|1(\\.0+)?))?$").unwrap();', 'Regex::new(r"^[AKQJT98765432]{2}(:(0(\\.[0-9]+)?|0(\\.0+)?))?$").unwrap();')),
+    M("mg-weight-one-digit-fraction", ["C05"], (TK, 'Regex::new(r"^[AKQJT98765432]{2}[so](:(0(\\.[0-9]+)?|1(\\.0+)?))?$").unwrap();', 'Regex::new(r"^[AKQJT98765432]{2}[so](:(0(\\.[0-9])?|1(\\.0+)?))?$").unwrap();')),
 ]
